@@ -598,7 +598,7 @@ def afterGet {α : Type} (g : GetR α) (parse : α → Option Info) : Out :=
 def getStatefulSetLikeWorkload (c : Cluster) (ns : String) (ref : Ref) : Out :=
   match getEmptyWorkloadObject c.filter (fromAPIVersionAndKind ref.apiVersion ref.kind) with
   | none => .nothing
-  | some .replicaSet => afterGet (c.getReplicaSet ns ref.name) (fun _ => none)   -- GetMetadata panics on *apps.ReplicaSet
+  | some .replicaSet => .nothing     -- a ReplicaSet is a known GVK only for owner chains, not a workload (no Get)
   | some .daemonSet => afterGet (c.getDaemonSet ns ref.name) parseDaemonSet
   | some .deployment => afterGet (c.getDeployment ns ref.name) parseDeployment
   | some .cloneSet => afterGet (c.getCloneSet ns ref.name) parseCloneSet
